@@ -2,7 +2,7 @@ SPECIFICATION GSpec
 CONSTANTS
   Layouts <- GenCommon
   Impl <- NoDevs
-  Depth = 4
+  Depth = 5
   GenModes <- QuickModes
   GenBy = TRUE
 CONSTRAINT Bound
